@@ -17,6 +17,7 @@ def check(tree, rep, tier='quick', seed=0):
     R.k12_schedule_once(core, rep)
     R.k15_no_live_generator(core, rep)
     R.k8_input_store_writes(core, rep)
+    R.k18_cli_store_identity(core, rep)  # an answer marked met is really stored: otherwise the same question returns every round
     R.k24_tracker_shape(core, rep)
     R.k24e_waiters_only_tracker_mutates(core, rep)
     rep.floor('core rule obligations', sum(v[0] for k, v in rep.rules.items() if k.startswith('K')), 25)
